@@ -62,8 +62,14 @@ m = dict(version=1, setup_cmd='tools/setup',
                        kind_free_text='differential: runtime functions called in-process vs the Lean model on enumerated operations'),
                   dict(name='fsdiff', path='tools/pv/other.py', serves_properties=['C18'],
                        kind_free_text='differential: build-script operation histories against the real Compile in a scratch directory vs the Lean state machine'),
-                  dict(name='gendiff', path='tools/pv/gendiff.py', serves_properties=['C03', 'C15', 'C16', 'C12', 'C17'],
-                       kind_free_text='differential: real generator outcome classes, declared types, front-end ASTs, integration routes vs the Lean model')],
+                  dict(name='gendiff', path='tools/pv/gendiff.py', serves_properties=['C03', 'C15'],
+                       kind_free_text='differential: real generator outcome classes and declared types vs the Lean model of the generator, raw-text totality stream in isolated processes'),
+                  dict(name='routes', path='tools/pv/routes.py', serves_properties=['C16', 'C15', 'C12'],
+                       kind_free_text='byte comparison of the library call in fresh processes, the command-line tool, the build-script helper (settings in either order) and the peginate! macro (tools/pv/macroroute.py: behaviour and nightly -Zunpretty=expanded text)'),
+                  dict(name='frontend', path='tools/pv/frontend.py', serves_properties=['C12', 'C17'],
+                       kind_free_text='three-way differential: generating AST / shipped Grammar::from_str / Lean model front end (eval on the meta-grammar extracted from grammar.ebnf) on printed layouts and mutants; stage-2 bootstrap vs shipped generated.rs'),
+                  dict(name='proofstage', path='tools/pv/proofstage.py', serves_properties=IDS,
+                       kind_free_text='tables re-extracted from /repo (tools/extract.py), lake build of the property module, forbidden-token scan, #print axioms audit of every theorem, leanchecker in the thorough tier')],
          checks=checks,
          not_applicable=[dict(property_id=i, reason=NA.get(i, 'check under construction (framework being built; see DESIGN.md section 11)')) for i in IDS if i not in CLAIMS],
          notes='All checks share one entry point tools/check; proofs are in lean/PegVerif/Props/<ID>.lean (helper lemmas in lean/PegVerif/Proofs/). See DESIGN.md.')
